@@ -14,6 +14,11 @@ from .base import get_ctx, immutable_reprs, is_imm, pmap, wkey
 
 def _keep(ev):
     """The *set* of writes to not-purely-fresh objects (value fields dropped)."""
+    if ev[0] == "INV":
+        # invalidate_attrs(obj, attr) deletes / resets dependants *on obj*
+        if tuple(ev[3]) == (FRESH,):
+            return None
+        return ("W", "invalidate_attrs", ev[1], tuple(ev[3]), None, None, None, (), "", ev[-1])
     if ev[0] != "W" or tuple(ev[3]) == (FRESH,):
         return None
     return ("W", ev[1], ev[2], ev[3], None, None, None, (), ev[8], ev[9])
@@ -44,9 +49,8 @@ def worker(task):
                 continue
             if is_imm(e[2], p["imm"]):
                 continue   # target is an immutable atom on this path: the write cannot succeed
-            if not (prov & {"RECV", "ARG"}):
-                userwrites.add((e[1], e[2], e[-1]))   # result of a user callback: not receiver/argument state
-                continue
+            # results of user callbacks (preparers, transforms) may alias receiver / argument state
+            # (soundness envelope 1): writing them uncopied is an ownership violation as well
             viols.append({"key": wkey(ctx.p, "C01.W", e), "site": e[-1], "prov": sorted(prov), "how": e[1],
                           "target": e[2], "via": e[8], "entry": r["entry"], "path": p["desc"]})
     r["viols"] = viols
